@@ -203,32 +203,6 @@ def C09_fullname_statement : Prop :=
     nameRefChain env chain name = .ok p →
     resolveQName chain isAttribute p = some (env.nsOfName name)
 
-theorem nameRefChain_ok {env : Env} {chain : List Tree} {name p : Nat}
-    (h : nameRefChain env chain name = .ok p) :
-    (env.nsOfName name = Env.noNamespace ∧ p = Env.emptyPrefix) ∨
-    (env.nsOfName name ≠ Env.noNamespace ∧
-      scopeSpecChain chain p = some (env.nsOfName name)) := by
-  unfold nameRefChain at h
-  by_cases hns : env.nsOfName name = Env.noNamespace
-  · simp only [hns, bne_self_eq_false, Bool.false_eq_true, ↓reduceIte, Except.ok.injEq] at h
-    exact .inl ⟨hns, h.symm⟩
-  · have h2 : (env.nsOfName name != Env.noNamespace) = true := by simpa [bne] using hns
-    simp only [h2, ↓reduceIte] at h
-    refine .inr ⟨hns, ?_⟩
-    cases hp : prefixForNamespaceChain chain (env.nsOfName name) with
-    | none => simp [hp] at h
-    | some q =>
-      simp only [hp, Except.ok.injEq] at h
-      subst h
-      unfold prefixForNamespaceChain at hp
-      rw [pfnChain_eq] at hp
-      cases hd : pfnDecls (env.nsOfName name) [] (allDecls chain) with
-      | cont s => simp [hd, pfnResult] at hp
-      | ret r =>
-        simp only [hd, pfnResult] at hp
-        subst hp
-        exact scopeSpecChain_of_lookup (pfnDecls_sound _ _ _ _ hd).2 hns
-
 /-- Element names: correct unless the name is in no namespace while a default namespace is in
     scope (then no prefix could say so; the name is reported unprefixed all the same). -/
 theorem C09_fullname_element_partial (env : Env) (chain : List Tree) (name p : Nat)
